@@ -75,6 +75,9 @@ func propC01(c *Ctx, r *Report) {
 	r.Clauses = append(r.Clauses, zeroInitClause)
 	c.runZeroInitOpVariable(r, "zeroinit.opvariable")
 	r.floor("zeroinit.opvariable", 2)
+	r.Clauses = append(r.Clauses, argsRoleClause)
+	c.runArgsNameRole(r, "args.namerole", inPkgs("spirv"))
+	r.floor("args.namerole", 20)
 	r.floor("tables.OpCode", 150)
 	r.floor("tables.Decoration", 10)
 	r.floor("tables.BuiltIn", 20)
